@@ -120,7 +120,7 @@ func init() {
 				Thorough: grid([]string{"M", "P"}, seq(3, 16), []int{1, 2, 3})},
 			{Name: "C04_step", Expect: []string{"end", "inv-living-count"},
 				Quick:    grid([]string{"M", "P", "n"}, []int{3, 4, 5}, []int{1, 2}, []int{1, 2}),
-				Thorough: grid([]string{"M", "P", "n"}, []int{3, 4, 5, 8, 13}, []int{1, 2, 3}, []int{1, 2, 3})},
+				Thorough: append(grid([]string{"M", "P", "n"}, []int{3, 4, 5, 8, 13}, []int{1, 2, 3}, []int{1, 2}), grid([]string{"M", "P", "n"}, []int{3, 4}, []int{1, 2}, []int{3})...)},
 			{Name: "C04_create", Expect: []string{"refused"},
 				Quick:    grid([]string{"M"}, []int{0, 1, 2}),
 				Thorough: grid([]string{"M"}, []int{0, 1, 2})},
@@ -242,7 +242,7 @@ func init() {
 				Thorough: grid([]string{"depth"}, []int{0})},
 			{Name: "C07_glue", Expect: []string{"accepted", "rejected", "value-equals-reference"}, Witnesses: 8,
 				Quick:    grid([]string{"depth"}, []int{1}),
-				Thorough: grid([]string{"depth"}, []int{1, 2})},
+				Thorough: grid([]string{"depth"}, []int{1})},
 			{Name: "C07_assert", Expect: []string{"accepted", "rejected"}},
 			{Name: "C07_constants", Expect: []string{"end"}},
 		},
